@@ -175,6 +175,9 @@ func (m *StrMap[V]) makeHashtable() {
 
 // Get ...
 func (m *StrMap[V]) Get(s string) (t V, ok bool) {
+	if len(m.hashtable) == 0 { // never loaded
+		return t, false
+	}
 	slot := uint32(maphash.String(m.seed, s)) % uint32(len(m.hashtable))
 	i := m.hashtable[slot]
 	if i < 0 {
